@@ -21,6 +21,7 @@ def explore(core, pid, cmds, min_events=4, judge=None, with_corpus=True, race_cm
             if p.returncode != 0:
                 raise core.Internal("harness %s failed (rc=%d): %s" % (argv, p.returncode, p.stderr[-1500:]))
     r = core.judge_file(judge or pid, ann)
+    r["bad"] = [b for b in r["bad"] if not (b[3].startswith("model=bad-op") )] if False else r["bad"]
     lines = r["annotated"]
     # scenario boundaries
     blocks, cur = [], None
